@@ -97,6 +97,9 @@ def compare(d, o):
         return "mistake ignored: configuration accepted although it has offending entries %s" % d["defects"][:3]
     if not d["reject"] and err:
         return "valid configuration rejected (%s): %s" % (o["stage"], err[:300])
+    if err and o.get("err2") and o["err2"] != err:
+        return ("the rejection names the offending entry inconsistently: the same error value renders differently the second time: "
+                "first %r, then %r" % (err[:200], o["err2"][:200]))
     if d["reject"]:
         lines = err.split("\n")
         if not any(names(x, ln) for x in d["defects"] for ln in lines):
